@@ -468,6 +468,49 @@ static int pairs(char db, int zi, int zj) {
       }
     }
   }
+  // wall times inside the overlap / gap of every offset change of the zone, asked after a query that was answered with the
+  // offset before the change, with the offset after it, or with no query at all in between (both orders, both kinds of first query)
+  {
+    reset_all();
+    handle(std::string("PROC ") + db);
+    char b[96]; snprintf(b, sizeof(b), "TZ 0 %d", zi); handle(b);
+    std::vector<long long> ts; std::vector<int> o1s, o2s;
+    auto offAt = [&](long long t) { char c[64]; snprintf(c, sizeof(c), "F 0 off %lld", t); std::string r = handle(c); return r == "ERR" ? 99999 : atoi(r.c_str()); };
+    long long t0 = (long long) LocalDate::forComponents(2000, 1, 2).toEpochDays() * 86400LL;
+    long long t1 = (long long) LocalDate::forComponents(2049, 12, 30).toEpochDays() * 86400LL;
+    int prev = offAt(t0);
+    for (long long t = t0 + 86400; t < t1; t += 86400) {
+      int cur = offAt(t);
+      if (cur != prev && cur != 99999 && prev != 99999) {
+        long long lo = t - 86400, hi = t;
+        while (hi - lo > 1) { long long mid = (lo + hi) / 2; if (offAt(mid) == prev) lo = mid; else hi = mid; }
+        if (offAt(hi) == cur) { ts.push_back(hi); o1s.push_back(prev); o2s.push_back(cur); }
+      }
+      prev = cur;
+    }
+    for (size_t i = 0; i < ts.size(); i++) {
+      long long T = ts[i]; int o1 = o1s[i], o2 = o2s[i];
+      // local (wall) seconds in the middle of the overlap (o2 < o1) or of the gap (o2 > o1), and just outside it
+      long long locals[3] = {T + 30LL * (o1 + o2), T + 60LL * (o1 < o2 ? o1 : o2) - 600, T + 60LL * (o1 > o2 ? o1 : o2) + 600};
+      long long befores[4] = {T - 40LL * 86400, T + 40LL * 86400, T - 1, T};
+      for (int li = 0; li < 3; li++) for (int bi = 0; bi < 4; bi++) for (int k1 = 0; k1 < 2; k1++) {
+        reset_all();
+        handle(std::string("PROC ") + db);
+        snprintf(b, sizeof(b), "TZ 0 %d", zi); handle(b);
+        LocalDateTime l = LocalDateTime::forEpochSeconds((acetime_t) locals[li]);
+        char a1[80], a2[96];
+        snprintf(a1, sizeof(a1), "%s %lld", k1 ? "abbrev" : "off", befores[bi]);
+        snprintf(a2, sizeof(a2), "odt %d %d %d %d %d %d", (int) l.year(), (int) l.month(), (int) l.day(), (int) l.hour(), (int) l.minute(), (int) l.second());
+        handle(std::string("Q 0 ") + a1);
+        std::string got = handle(std::string("Q 0 ") + a2), want = handle(std::string("F 0 ") + a2);
+        n++;
+        if (got != want) {
+          if (bad < 10) printf("MISMATCH zone=%d hist=[%s; %s] got=%s fresh=%s\n", zi, a1, a2, got.c_str(), want.c_str());
+          bad++;
+        }
+      }
+    }
+  }
   if (zj >= 0) aba(db, zi, zj, n, bad);
   printf("PAIRS zone=%d n=%llu bad=%llu\n", zi, n, bad);
   return 0;
